@@ -269,6 +269,35 @@ func maxN(tier string) int {
 	return 14
 }
 
+// largeNs are additional, larger dimensions (block boundaries such as 32 / 64 / 128 rows
+// are where a buffering scheme would change behaviour); every write position and kind
+// is enumerated for them too, with two weight families each.
+func largeNs(tier string) []int {
+	if tier == "thorough" {
+		return []int{31, 32, 33, 63, 64, 65, 100, 128, 129, 130}
+	}
+	return []int{33, 65, 70}
+}
+
+type caseCfg struct {
+	n   int
+	fam int
+}
+
+func cases(tier string) []caseCfg {
+	var cs []caseCfg
+	nf := len(families(nil))
+	for n := 0; n <= maxN(tier); n++ {
+		for f := 0; f < nf; f++ {
+			cs = append(cs, caseCfg{n, f})
+		}
+	}
+	for _, n := range largeNs(tier) {
+		cs = append(cs, caseCfg{n, 1}, caseCfg{n, 5})
+	}
+	return cs
+}
+
 // enumerated case c = (n, family): the fault-free run, then EVERY write position k and
 // EVERY failure kind.
 func runCase(r *driver.Run, n int, fam family) {
@@ -316,6 +345,9 @@ func runCase(r *driver.Run, n int, fam family) {
 func runRandom(r *driver.Run) {
 	t := r.T
 	n := t.Range(0, 12)
+	if t.Chance(1, 16) {
+		n = t.Range(13, 140) // occasionally a large instance
+	}
 	seedA, seedB := t.Draw(1<<31), t.Draw(1<<31)
 	tapeW := func(i, j int) int {
 		h := uint64(seedA)*0x9e3779b97f4a7c15 + uint64(i)*1000003 + uint64(j)*7919 + uint64(seedB)
@@ -358,17 +390,17 @@ func main() {
 		Property: "C20",
 		Engine:   "writer-faults",
 		Level:    "fault_enumeration",
-		Rule: "enumerated case = (n, weight family): one fault-free execution of tsp.LIB whose output is parsed by an independent TSPLIB parser, then one execution per (write position k, failure kind) for EVERY k below the number of Write calls the fault-free run made and every kind in {transient, permanent} x {0 bytes accepted, short count, full count with error}; " +
+		Rule: "enumerated case = (n, weight family) for every n up to 14 (24 thorough) x 6 families, plus larger n (33, 65, 70; thorough: 31..33, 63..65, 100, 128..130) x 2 families: one fault-free execution of tsp.LIB whose output is parsed by an independent TSPLIB parser, then one execution per (write position k, failure kind) for EVERY k below the number of Write calls the fault-free run made and every kind in {transient, permanent} x {0 bytes accepted, short count, full count with error}; " +
 			"random runs draw n, a weight family (incl. tape-random 64-bit weights) and a per-write failure rate, so several failures land in one execution. A case is non-trivial when LIB performs more than 3 writes (i.e. reaches the buffered weight section); distinct = distinct fingerprints of (writes, bytes, faults fired) sequences.",
 		Assumptions: []string{
 			"a Write that returns n < len(p) with a nil error violates the io.Writer contract and is never injected",
 			"the weight function is deterministic and total on 0 <= j < i < n",
-			"n <= 14 (quick) / 24 (thorough) and the listed weight families (plus tape-random weights) sample the input dimension; the write-failure dimension is enumerated completely for each of them",
+			"n <= 14 (quick) / 24 (thorough) plus a few larger n and the listed weight families (plus tape-random weights) sample the input dimension; the write-failure dimension is enumerated completely for each of them",
 		},
 		Real:  []string{"tsp.LIB", "text/tabwriter", "fmt"},
 		Stubs: []string{"io.Writer (simulated disk: records bytes, fails on schedule)", "weights callback (records its arguments)"},
 		Plan: func(tier string) driver.Plan {
-			p := driver.Plan{Enum: (maxN(tier) + 1) * len(families(nil)), Random: 60000, Exhaustive: true, WallLimit: 5 * time.Minute}
+			p := driver.Plan{Enum: len(cases(tier)), Random: 60000, Exhaustive: true, WallLimit: 5 * time.Minute}
 			if tier == "thorough" {
 				p.Random = 2000000
 				p.WallLimit = 20 * time.Minute
@@ -378,11 +410,9 @@ func main() {
 		RunOne: func(r *driver.Run) {
 			if r.Case >= 0 {
 				fs := families(nil)
-				n := r.Case / len(fs)
-				if n > 40 {
-					n = 40
-				}
-				runCase(r, n, fs[r.Case%len(fs)])
+				cs := cases(r.Tier)
+				c := cs[r.Case%len(cs)]
+				runCase(r, c.n, fs[c.fam])
 				return
 			}
 			runRandom(r)
